@@ -245,7 +245,7 @@ CONTRACTS = {
     # channel predicates, Choi-matrix branch (requires: phi is not a list): tolerances must reach the same-named parameters of the callees
     "is_positive": ("toqito/channel_props/is_positive.py", [("phi", "arr"), ("rtol", "real"), ("atol", "real")], ["not isinstance(phi, list)"],
                     lambda e: tq("is_positive_semidefinite", B, mat=e["phi"], rtol=e["rtol"], atol=e["atol"]), "is_positive(J, rtol, atol) == is_positive_semidefinite(J, rtol=rtol, atol=atol)"),
-    "is_herm_preserving": ("toqito/channel_props/is_herm_preserving.py", [("phi", "arr"), ("rtol", "real"), ("atol", "real")], ["not isinstance(phi, list)", "not phi.shape[0] != phi.shape[1]"],
+    "is_herm_preserving": ("toqito/channel_props/is_herm_preserving.py", [("phi", "arr"), ("rtol", "real"), ("atol", "real")], ["not isinstance(phi, list)", lambda e: uf("shape[0]", R, e["phi"]) == uf("shape[1]", R, e["phi"])],
                            lambda e: tq("is_hermitian", B, mat=e["phi"], rtol=e["rtol"], atol=e["atol"]), "is_herm_preserving(J, rtol, atol) == is_hermitian(J, rtol=rtol, atol=atol) for a square Choi matrix"),
     "is_completely_positive": ("toqito/channel_props/is_completely_positive.py", [("phi", "arr"), ("rtol", "real"), ("atol", "real")], ["not isinstance(phi, list)"],
                                lambda e: z3.And(tq("is_herm_preserving", B, phi=e["phi"], rtol=e["rtol"], atol=e["atol"]), tq("is_positive_semidefinite", B, mat=e["phi"], rtol=e["rtol"], atol=e["atol"])),
